@@ -23,7 +23,7 @@ impl Prop for C12 {
         "exploration"
     }
     fn rule(&self) -> String {
-        "run kinds. lib: seeded valid writer history (any interleaving, all layer sets; one run in twelve with 65..300 files of which 1-3 stay open across dozens of others; now and then 17..1000 recipients) written by the library (one scaled run in eight: the same files in an archive of the independent writer, with its own ids, index form and empty blocks), then linear_extract into a seeded subset of the names (empty, one, some, all, plus a name that is not in the archive), each chosen name with its own simulated sink under a seeded transfer schedule (1 byte, 1..n, Interrupted bursts): every chosen sink must hold exactly the model's bytes for that name (= what get_file returns, C01/C10), nothing else exists to receive data, the result is Ok. nomark / cutblock: the format model's foreign writer builds an archive (all layer sets) whose index is intact but whose block stream has no end-of-data marker, or is cut inside a content block - two times in three so that the byte right before the index, where the marker should be, is FE / 00 / 01 / FF (for a missing marker: a tiny last file whose SHA-256 ends with that byte); at production constants half of these runs put 4..7 MiB of a file that is not chosen after the small chosen one -: the archive opens, and linear_extract must return Err (the model first checks that the bytes following the blocks cannot be mistaken for a marker). sinkfail: the first chosen sink fails at its k-th write: the result must be Err. distinct_nontrivial = distinct (kind, variant, layers, subset class, interleaved, sink schedule kind, outcome) signatures.".into()
+        "run kinds. lib: seeded valid writer history (any interleaving, all layer sets; one run in twelve with 65..300 files of which 1-3 stay open across dozens of others; now and then 17..1000 recipients) written by the library (one scaled run in eight: the same files in an archive of the independent writer, with its own ids, index form and empty blocks), then linear_extract (one scaled run in four: through a source that returns short reads) into a seeded subset of the names (empty, one, some, all, plus a name that is not in the archive), each chosen name with its own simulated sink under a seeded transfer schedule (1 byte, 1..n, Interrupted bursts): every chosen sink must hold exactly the model's bytes for that name (= what get_file returns, C01/C10), nothing else exists to receive data, the result is Ok. nomark / cutblock: the format model's foreign writer builds an archive (all layer sets) whose index is intact but whose block stream has no end-of-data marker, or is cut inside a content block - two times in three so that the byte right before the index, where the marker should be, is FE / 00 / 01 / FF (for a missing marker: a tiny last file whose SHA-256 ends with that byte); at production constants half of these runs put 4..7 MiB of a file that is not chosen after the small chosen one -: the archive opens, and linear_extract must return Err (the model first checks that the bytes following the blocks cannot be mistaken for a marker). sinkfail: the first chosen sink fails at its k-th write: the result must be Err. distinct_nontrivial = distinct (kind, variant, layers, subset class, interleaved, sink schedule kind, outcome) signatures.".into()
     }
     fn assumptions(&self) -> Vec<String> {
         vec!["archives with an early or duplicated marker, reused ids or other hostile shapes are C08 inputs, not C12 ones".into()]
@@ -72,6 +72,7 @@ impl Prop for C12 {
             _ => rng.below(64) as i64,
         } });
         case.params.insert("far_tail".into(), i64::from(far_tail));
+        case.params.insert("src_short".into(), i64::from(!big && rng.chance(1, 4)));
         if !big && (mode == M_LIB || mode == M_SINKFAIL) && rng.chance(1, 8) {
             case.params.insert("foreign".into(), 1);
         }
@@ -183,7 +184,11 @@ impl Prop for C12 {
             // only meaningful if the first chosen sink receives at least that many write calls
             fail = Some(case.param("fail_call", 0) as u64);
         }
-        let rcfg = ReadCfg::for_cfg(&case.cfg);
+        let mut rcfg = ReadCfg::for_cfg(&case.cfg);
+        if case.param("src_short", 0) == 1 {
+            // the archive itself is read through a source that returns short reads (a read may end inside a block header)
+            rcfg.sched = Sched::make(&mut Rng::new(case.param("plan_seed", 1) as u64 ^ 0x51C), false);
+        }
         let out = s.linear(Rc::new(image), &rcfg, &subset, &case.sink, fail);
         ctx.eval();
         let kind = ["lib", "nomark", "cutblock", "sinkfail"][mode as usize];
